@@ -149,6 +149,12 @@ func canonReplOutput(out string) string {
 	return strings.Join(items, " ")
 }
 
+func (e *replLoopEngine) cleanup() {
+	if e.home != "" {
+		os.RemoveAll(e.home)
+	}
+}
+
 func (e *replLoopEngine) run(payload string) string {
 	lines, ok := decodeLines(payload)
 	if !ok {
